@@ -597,6 +597,7 @@ def twin_of(rnd, td, name):
 
 # (enum encoding, encoding override on the unit variant, shape it is turned into): the unit variant's
 # own container kind differs from the enum's, then the documented edit "unit -> variant with optional fields"
+TRANSP = []   # transparent newtypes around nil-capable types (filled from special_types)
 FORCED_CHAINS = [(None, "map", "named"), (None, "map", "tuple"), ("array", "map", "named"), ("map", "array", "named"), ("map", "array", "tuple"), ("map", None, "named"), (None, None, "tuple")]
 
 
@@ -630,6 +631,10 @@ def gen_chain(rnd, cid, pool, force=None):
     n = rnd.choice([1, 2, 3, 4])
     s.fields = gen_fields(rnd, n, pool, False, allow_skip=False)
     used = set(f.index for f in s.fields)
+    if force and TRANSP:
+        # a mandatory field whose type is a transparent newtype around an Option (never nil itself)
+        s.fields.append(Field("tr", max(used) + 1, named(TRANSP[cid % len(TRANSP)])))
+        used = set(f.index for f in s.fields)
     ei = max(used) + rnd.choice([1, 2, 3])
     s.fields.append(Field("en", ei, opt(named(e)), tag=rnd.choice([None, None, 6])))
     # make sure there is room for gap insertions: shift some indices up
@@ -870,6 +875,8 @@ def main():
     twins = []
     for td in special_types():
         all_types.append(td)
+        if td.name in ("TranspOpt", "TranspOptStr"):
+            TRANSP.append(td)
     for k in range(ntypes):
         name = "T%d" % k
         td = gen_struct(rnd, name, pool[-12:]) if rnd.random() < 0.6 else gen_enum(rnd, name, pool[-12:])
